@@ -55,6 +55,17 @@ def case(draw):  # noqa: C901
     formal_names = [a[0] for c in callees for a in c["args"]]
     pool = list(dict.fromkeys(formal_names + [f"{c['name']}_{a[0]}" for c in callees for a in c["args"]] + ["g_x", "gv", "p", "q", "r", "s"]))
     draw_names = draw(st.permutations(pool))
+    naming = draw(st.sampled_from(["random", "random", "cross", "cross-plain", "formal-rotated"]))
+    if naming != "random":
+        # the caller's variable that feeds formal j is called like ANOTHER formal of the callee (plain or with the
+        # '<callee>_' prefix the library gives to a definition's symbols)
+        lead = []
+        for c in callees:
+            fs = [a[0] for a in c["args"]]
+            rot = fs[1:] + fs[:1]
+            lead += [x if naming == "formal-rotated" else f"{c['name']}_{x}" for x in rot]
+        lead = list(dict.fromkeys(lead))
+        draw_names = lead + [x for x in draw_names if x not in lead]
     args = []
     used_bits = 0
     ni = 0
@@ -62,6 +73,8 @@ def case(draw):  # noqa: C901
         for a in c["args"]:
             t = a[1]
             shape = draw(st.sampled_from(["plain", "plain", "tuple", "tuple", "nested"]))
+            if naming == "cross-plain":
+                shape = "plain"
             if used_bits + gen_prog.nbits(t) > 9 or ni >= len(draw_names):
                 continue
             nm = draw_names[ni]
